@@ -26,6 +26,8 @@ func (e *SExpr) String() string {
 	switch e.Kind {
 	case "ident", "num":
 		return e.Name
+	case "str":
+		return "\"" + e.Name + "\""
 	case "bin":
 		return "(" + e.Args[0].String() + " " + e.Name + " " + e.Args[1].String() + ")"
 	case "un":
@@ -73,6 +75,19 @@ func lexSpec(src string, where string) ([]tok, error) {
 			for i < len(rs) && rs[i] != '\n' {
 				i++
 			}
+			continue
+		}
+		if c == '"' {
+			// string literal (no escapes needed so far)
+			j := i + 1
+			for j < len(rs) && rs[j] != '"' {
+				j++
+			}
+			if j >= len(rs) {
+				return nil, fmt.Errorf("%s: unterminated string literal in spec", where)
+			}
+			out = append(out, tok{"str", string(rs[i+1 : j]), where})
+			i = j + 1
 			continue
 		}
 		if unicode.IsLetter(c) || c == '_' || c == '\\' || c == '$' {
@@ -323,6 +338,8 @@ func (p *sparser) parsePrimary() *SExpr {
 	switch t.k {
 	case "num":
 		return &SExpr{Kind: "num", Name: t.s}
+	case "str":
+		return &SExpr{Kind: "str", Name: t.s}
 	case "id":
 		if t.s == "forall" || t.s == "exists" {
 			q := &SExpr{Kind: "quant", Name: t.s}
